@@ -17,17 +17,6 @@ namespace HL.Props.C12
 open HL.Index HL.Workspace HL.Spec.Rebuild
 open HL.Lemmas.Index HL.Lemmas.WsInv HL.Lemmas.Update HL.Lemmas.Init HL.Lemmas.View HL.Lemmas.Run
 
-/-- hypotheses shared by the theorems: a non-empty directory of well-formed contributions with
-    distinct non-empty names, within the loader's depth limit; well-formed edits; and the
-    include graphs are empty when indexing starts (`graphsClean`: the code repaired by
-    fix-stale-include-graph.diff, or a root chosen by name). -/
-structure Setting (cfg : Cfg) (fs : FS) (us : List Upd) : Prop where
-  ok : fsOk fs = true
-  nonempty : fs ≠ []
-  limit : fs.length ≤ cfg.limit
-  clean : graphsClean cfg fs
-  upds : updsOk us = true
-
 /-- `index_is_sum`: after any history every counter of the index equals the sum of the
     contributions of the indexed files (so `decrementBy` never truncates), every stored count
     is positive (so the derived name lists are the sorted supports), the transaction index
